@@ -143,7 +143,9 @@ def real(case):
         'trajs': [np.array(t, dtype=np.int64) for t in gen.relabel(idx, labs)],
         'trajs2': [np.array([(x * 3 + 1) % 4 for x in t], dtype=np.int64) for t in idx],
         'lags': np.array([3, 1, 2]),                       # deliberately unsorted ndarray
-        'T': gen.normalise_counts(gen.rand_irreducible(rng, ns)),
+        # a transition matrix the way a user would type it: 9 decimals, so its row sums miss 1 by ~1e-9 (inside every tolerance of the library, but a
+        # "clean-up" of the rows would change the caller's array)
+        'T': np.round(gen.normalise_counts(gen.rand_irreducible(rng, ns)), 9),
         'table': np.array([[rng.uniform(-2, 2) for _ in range(3)] for _ in range(25)]),
         'series': np.array([rng.uniform(-2, 2) for _ in range(25)]),
         'old': [labs[0], labs[1]], 'new': [labs[1], labs[0]],
